@@ -30,8 +30,7 @@ theorem tightenConstraintExpression_inBox {ρ : String → K} (c : Constraint (E
   dsimp only
   split
   · exact hb
-  · rename_i req' hreq
-    have hm : Mem (l - r) req' := mem_intersection hreq (mem_sub hlb hrb) (mem_required hcmp)
+  · have hm : Mem (l - r) (Bounds.required c.cmp : Bounds (Ext K)) := mem_required hcmp
     refine tightenExpression_ok ρ _ _ _ r (tightenExpression_ok ρ _ _ _ l hb hl ?_) hr ?_
     · have := mem_add hm hrb; simpa using this
     · have := mem_sub hlb hm; simpa using this
@@ -113,10 +112,13 @@ theorem fromConstraint_den {ρ : String → K} {c : Constraint (Ext K)} {f : Aff
     cases hfr : AffineForm.fromExp c.rhs with
     | none => simp [hfl, hfr] at hf
     | some fr =>
-      simp [hfl, hfr] at hf; subst hf
-      refine ⟨l - r, ?_, mem_required hcmp⟩
-      have := merge_den (-1) (fromExp_den ρ _ _ _ hfl hl) (fromExp_den ρ _ _ _ hfr hr)
-      simpa [Ext.neg, sub_eq_add_neg] using this
+      simp only [hfl, hfr] at hf
+      split at hf
+      · cases hf
+      · cases hf
+        refine ⟨l - r, ?_, mem_required hcmp⟩
+        have := merge_den (-1) (fromExp_den ρ _ _ _ hfl hl) (fromExp_den ρ _ _ _ hfr hr)
+        simpa [Ext.neg, sub_eq_add_neg] using this
 
 theorem stepConstraint_inBox {ρ : String → K} (an : Analyzer (Ext K)) (c : Constraint (Ext K))
     (hc : Holds ρ c) (hb : InBox ρ an.variableBounds) :
